@@ -522,7 +522,7 @@ def _initial(r: Resolver, head, svars: set[str], consts: dict[str, int]) -> dict
 # ----------------------------------------------------------------------------------------- X2 exception discipline
 EXEMPT = {
     ("Function.infix_to_postfix", "RuntimeError"):
-        "unreachable: final else of an exhaustive token dispatch (operand | function | ',' | operator | '(' | ')')",
+        "unreachable: no token of any class, in any configuration the pushdown interpretation (PD) explores, ends in it",
     ("RuleBlock.load_rules", "RuntimeError"):
         "not on the import path: FllImporter.engine constructs Engine() without rule blocks, so the loop has no iterations",
 }
@@ -571,12 +571,17 @@ def _ordinal_raise(f, node) -> int:
 def exemption_holds(check: Check, q: str, name: str) -> bool:
     p = check.program
     if q == "Function.infix_to_postfix":
-        # the element type enum has exactly two members and the dispatch tests both, plus the three punctuation tokens
-        typ = p.cls("Function.Element.Type")
-        members = [k for k, v in typ.class_attrs.items() if not k.startswith("_")]
-        fn = p.func(q)
-        src = unparse(fn.node)
-        return len(members) == 2 and "is_function()" in src and "is_operator()" in src and all(f"token == '{c}'" in src for c in "(),")
+        # unreachable on every input the pushdown interpretation explores: PD steps the token loop on every class of token (operand, function, `,`,
+        # operator, `(`, `)`) in every configuration up to its depth and compares each outcome - a RuntimeError would be one - with the reference
+        pd = [o for o in check.obligations if o.rule == "PD" and o.construct.startswith("Function.infix_to_postfix/")]
+        if not pd:
+            from ..report import Check as _Check
+            from . import pushdown
+
+            tmp = _Check(check.prop, p, check.tier)
+            pushdown.infix_to_postfix(tmp)
+            pd = [o for o in tmp.obligations if o.rule == "PD"]
+        return bool(pd) and all(o.status == "ok" for o in pd)
     if q == "RuleBlock.load_rules":
         fn = p.func("FllImporter.engine")
         calls = [c for c in ast.walk(fn.analysis_node) if isinstance(c, ast.Call) and unparse(c.func) == "Engine"]
